@@ -149,6 +149,12 @@ pub fn valid_case(r: &Req) -> bool {
     if r.s("o") == "i32" && matches!(r.f.as_str(), "ts_vmin" | "ts_vmax") {
         return false;
     }
+    // infinities: float encodings and outputs, order-only functions
+    if r.list("xs").iter().any(|x| x.ends_with("inf"))
+        && (!matches!(t, "f64" | "of64" | "f32") || !matches!(r.s("o"), "f64" | "of64" | "f32")
+            || matches!(r.f.as_str(), "ts_vminmaxnorm" | "ts_vzscore")) {
+        return false;
+    }
     true
 }
 
@@ -353,11 +359,29 @@ pub fn generate(tier: &str, rng: &mut Rng) -> (Vec<String>, bool) {
     }
     // the same requests at tiny scales (2^-50, 2^-60): a spread far below any epsilon is still a spread
     crate::cases::add_scaled(&mut out, 13, &[50, 60], &["xs"]);
+    // the two infinities: extrema, arg-extrema and ranks only compare (the model reads +-inf as +-2^1100)
+    for len in 1..=(if thorough { 5 } else { 4 }) {
+        for xs in all_series(&["_", "-inf", "1", "inf"], len) {
+            if !xs.iter().any(|x| x.ends_with("inf")) {
+                continue;
+            }
+            for w in 1..=len + 1 {
+                for mp in [Some(0), Some(1), Some(w)] {
+                    for cfg in &CONFIGS[..8] {
+                        k += 1;
+                        let t = ["f64", "of64", "f32"][k % 3];
+                        let o = ["f64", "of64"][(k / 3) % 2];
+                        push_case(&mut out, cfg, &xs, w, mp, t, o, k % 5 == 4 && t != "f32");
+                    }
+                }
+            }
+        }
+    }
     (out, true)
 }
 
 pub fn rule(tier: &str) -> String {
     let th = tier == "thorough";
-    format!("ts_vmin/vmax/vargmin/vargmax/vrank(pct x rev)/vminmaxnorm/vzscore = 10 function configurations on Vec (two-phase *_to driver; element types f64,f32,i32,i64,Option<f64>,Option<i32>) and VecDeque (default iterator driver; f64, Option<f64>), outputs f64,Option<f64>,f32,i32 rotated. min/max/arg/rank (non-pct) are compared as exact rational strings for float outputs (no tolerance); pct rank, minmaxnorm, zscore within 1e-9 rel. Stream 1 (exhaustive): every series over {{null,0,1}} of length 1..={}, every window 1..=len+2, every min_periods in {{omitted}} U 0..=w, every configuration. Stream 2: every series over {{null,0,1}} of length {}..={} x every window, configuration and min_periods rotated. Stream 3: every series over {{null,0,1,2}} of length 1..={} x every window, min_periods in {{0,1,w,omitted}} and two configurations rotated. Stream 4 (random): lengths up to {}, strictly monotone runs, plateaus, constant, slow walks, alphabets {{0..2}},{{0..4}}, zig-zag, values k/8, null overlays (sparse, dense, block covering whole windows, periodic). Every output position is compared, so every prefix history is covered. non-trivial = distinct request with >= 2 input elements and >= 1 non-null output.",
+    format!("ts_vmin/vmax/vargmin/vargmax/vrank(pct x rev)/vminmaxnorm/vzscore = 10 function configurations on Vec (two-phase *_to driver; element types f64,f32,i32,i64,Option<f64>,Option<i32>) and VecDeque (default iterator driver; f64, Option<f64>), outputs f64,Option<f64>,f32,i32 rotated. min/max/arg/rank (non-pct) are compared as exact rational strings for float outputs (no tolerance); pct rank, minmaxnorm, zscore within 1e-9 rel. Stream 1 (exhaustive): every series over {{null,0,1}} of length 1..={}, every window 1..=len+2, every min_periods in {{omitted}} U 0..=w, every configuration. Stream 2: every series over {{null,0,1}} of length {}..={} x every window, configuration and min_periods rotated. Stream 3: every series over {{null,0,1,2}} of length 1..={} x every window, min_periods in {{0,1,w,omitted}} and two configurations rotated. Stream 4 (random): lengths up to {}, strictly monotone runs, plateaus, constant, slow walks, alphabets {{0..2}},{{0..4}}, zig-zag, values k/8, null overlays (sparse, dense, block covering whole windows, periodic). Every output position is compared, so every prefix history is covered. The extrema, arg-extrema and rank configurations also run on every series over {{null,-inf,1,+inf}} up to length 4 (5) containing an infinity (float encodings and outputs; the model reads +-inf as +-2^1100). non-trivial = distinct request with >= 2 input elements and >= 1 non-null output.",
         if th { 7 } else { 6 }, if th { 8 } else { 7 }, if th { 10 } else { 8 }, if th { 6 } else { 5 }, if th { 300 } else { 80 })
 }
